@@ -91,6 +91,12 @@ def run(ck):
         ck.evaluations += 1
         kind = o["interop"]
         bad = []
+        if kind == "eval":
+            if o.get("eval_problem"):
+                ck.violation("eval", "tengo.Eval(%r): %s" % (o["go"], o["eval_problem"]), {"observation": o})
+            else:
+                ck.traces += 1
+            continue
         if "err" in o:
             bad.append("FromInterface failed: %s" % o["err"])
         else:
